@@ -16,13 +16,14 @@ Decs == << V("float", "0.5", 500000, 1, <<>>), V("float", "1.5", 1500000, 1, <<>
 Strs == << V("str", "a", 0, 0, <<97>>), V("str", "b", 0, 0, <<98>>), V("str", "\"it's\"", 0, 0, <<105,116,39,115>>),
            V("str", "\"x''y\"", 0, 0, <<120,39,39,121>>), V("str", "ab", 0, 0, <<97,98>>), V("str", "B", 0, 0, <<66>>),
            V("str", "\"a b\"", 0, 0, <<97,32,98>>),
-           V("str", "\"a,b\"", 0, 0, <<97,44,98>>), V("str", "x_y", 0, 0, <<120,95,121>>), V("str", "\"10\"", 0, 0, <<49,48>>) >>
+           V("str", "\"a,b\"", 0, 0, <<97,44,98>>), V("str", "x_y", 0, 0, <<120,95,121>>), V("str", "\"10\"", 0, 0, <<49,48>>),
+           V("str", "\"x\\\"", 0, 0, <<120,92>>) >>
 Star == V("star", "*", 0, 0, <<42>>)
 \* wildcard patterns: 42 = *  63 = ?
 Pats == << V("pat", "x*", 0, 0, <<120,42>>), V("pat", "*x", 0, 0, <<42,120>>), V("pat", "x?y", 0, 0, <<120,63,121>>),
            V("pat", "?", 0, 0, <<63>>), V("pat", "*", 0, 0, <<42>>), V("pat", "x*y*", 0, 0, <<120,42,121,42>>),
            V("pat", "a_b*", 0, 0, <<97,95,98,42>>), V("pat", "x.y*", 0, 0, <<120,46,121,42>>),
-           V("pat", "x??y", 0, 0, <<120,63,63,121>>), V("pat", "x\\\\*", 0, 0, <<120,92,92,42>>), V("pat", "a\\*b*", 0, 0, <<97,92,42,98,42>>), V("pat", "?x?", 0, 0, <<63,120,63>>), V("pat", "*x*y*", 0, 0, <<42,120,42,121,42>>) >>
+           V("pat", "x??y", 0, 0, <<120,63,63,121>>), V("pat", "x\\\\*", 0, 0, <<120,92,92,42>>), V("pat", "a\\*b*", 0, 0, <<97,92,42,98,42>>), V("pat", "b?\\*", 0, 0, <<98,63,92,42>>), V("pat", "?x?", 0, 0, <<63,120,63>>), V("pat", "*x*y*", 0, 0, <<42,120,42,121,42>>) >>
 Pool(ty) == CASE ty = "int" -> Ints [] ty = "float" -> Decs [] ty = "str" -> Strs
 Small(s) == IF Tier = "quick" THEN SubSeq(s, 1, IF Len(s) > 5 THEN 5 ELSE Len(s)) ELSE s
 
@@ -33,7 +34,7 @@ NumProbes == << -4000000, -3000000, -2999000, -1500000, -1499000, -1000000, 0, 1
 StrProbes == << <<120,39,39,121>>, <<120,39,121>>, <<>>, <<65>>, <<66>>, <<97>>, <<97,32>>, <<97,32,98>>, <<97,44,98>>, <<97,97>>, <<97,98>>, <<97,98,99>>, <<98>>, <<99>>,
                 <<105,116,39,115>>, <<120>>, <<120,121>>, <<120,97,121>>, <<120,95,121>>, <<120,46,121>>, <<120,122,121>>, <<97,120>>, <<121,120>>,
                 <<97,95,98>>, <<97,88,98>>, <<97,88,98,99>>, <<49>>, <<49,48>>, <<57>>, <<42>>, <<120,121,122,121>>,
-                <<120,92>>, <<120,92,97>>, <<120,92,92>>, <<120,42>>, <<97,42,98>>, <<97,42,98,99>>, <<97,37,98>>, <<97,37,98,99>>, <<97,120,98>> >>
+                <<120,92>>, <<120,92,97>>, <<120,92,92>>, <<120,42>>, <<97,42,98>>, <<97,42,98,99>>, <<97,37,98>>, <<97,37,98,99>>, <<97,120,98>>, <<98,120,42>>, <<98,120,37>>, <<98,42>> >>
 ProbeVals(ty) == IF ty = "str" THEN [i \in DOMAIN StrProbes |-> [ty |-> "str", n |-> 0, codes |-> StrProbes[i]]]
                  ELSE [i \in DOMAIN NumProbes |-> [ty |-> "num", n |-> NumProbes[i], codes |-> <<>>]]
 \* what the parameter list must carry for a value: same kind, wildcard patterns translated (* -> %, ? -> _)
